@@ -31,6 +31,18 @@ CLAIMED.update({
  'C17': ('bounded symbolic model checking: every strong_typedef operator bit-for-bit against the underlying operator (full 32-bit range), reference/recursive/unique_ptr/shared_ptr transparency, and ==/!=/</hash coherence '
          '(equivalence, strict weak order, congruence, equal => equal hash) on triples of fully symbolic values for 17 value types (grid/tree/raw_vector in the thorough tier)', '3 C17'),
 })
+CLAIMED.update({
+ 'C02': ('bounded symbolic model checking of the real combinators over a kernel-defined basic_stream on fully symbolic bytes (all 256 values per position, length 0..4 quick / 6 thorough): ~60 grammars covering every combinator and skipper '
+         'of the property (incl. recursive grammars, uint/int, wchar_t, the phrase_parse_stream entry path), compared with a reference PEG interpreter on success/failure, fatal flag, end position and produced value', '3 C02'),
+ 'C12': ('bounded symbolic model checking of the real parse::detail::stream<char/wchar_t> over a contract model of std::istream (get/tellg/seekg/clear; native replays use a real istream): symbolic texts (<= 4 quick, 6 thorough) and symbolic '
+         'histories of get_char/get_position/set_position (<= 6/7 steps) against the line/column definition, rewind exactness, failure on EOF/bad stream, error locations', '3 C12'),
+ 'C15': ('bounded symbolic model checking of the claimed parts: endianness convert/swap/reverse_mem and io::write/read round trips for u8..i64 and both endians (stream layer stubbed to a byte buffer), enum to_string/from_string on symbolic strings, '
+         'and the codecvt loop behind narrow/widen against a contract model of std::codecvt with uninterpreted per-unit lengths (n <= 3, 4 thorough): complete result or failure, never a truncated success', '3 C15'),
+ 'C16': ('bounded symbolic model checking: ~45 algorithm/container/array/tuple helpers on vector/list/deque/forward_list/set/map/array/tuple/int-enum ranges with fully symbolic elements, lengths 0..3 (5 thorough), predicates and mapping functions '
+         'uninterpreted with call logs for order and early stop, against loop-based references; split_string/join_strings inversion on symbolic strings', '3 C16'),
+ 'C20': ('bounded symbolic model checking with the URNG replaced by fresh symbolic words shared between fcppt and std::uniform_int_distribution (= every engine output sequence, not a sample of seeds): transparency of variate/basic/'
+         'uniform_int/enum/indices/uniform_container, parameters handed through, result in [a,b], both ends reachable (SAT witnesses), empty container => nothing, basic_pseudo == minstd_rand for a symbolic seed', '3 C20'),
+})
 NA = {}
 ALL = ['C%02d' % i for i in range(1, 21)]
 def main():
